@@ -27,6 +27,10 @@
  *       in a header line), and `e` lines for exclude: input line `e <hexname>` -> `e <0|1>`.
  *   c08_unpack rle <casefile>
  *       each line: <hex packed> <dest_len> ; runs the real arc_unpack(method 3) -> `r <ok> <hex>`
+ *   c08_unpack dp <casefile>
+ *       each line: <depacker name> <hex file> ; runs that depacker's real depack() on a memory stream
+ *       (decrunch_compress, decrunch_pp, arc_read, decrunch_zip, decrunch_lha, ...) ->
+ *       `D ok <len> <fnv>` or `D fail`
  */
 #include "vcommon.h"
 #include <xmp.h>
@@ -497,10 +501,56 @@ static int mode_rle(const char *path)
 	return 0;
 }
 
+/* ----------------------------------------------------------------- dp */
+static const char *const all_names[] = { "zip", "lha", "gzip", "bzip2", "xz", "compress", "pp", "sqsh", "arc",
+	"arcfs", "mmcmp", "lzx", "s404", NULL };
+
+static int mode_dp(const char *path)
+{
+	FILE *f = fopen(path, "r");
+	ssize_t n;
+	if (!f)
+		return 2;
+	while ((n = getline(&linebuf, &linecap, f)) > 0) {
+		char *a = strtok(linebuf, " \n");
+		char *b = strtok(NULL, " \n");
+		unsigned char *src;
+		long slen, outlen = 0;
+		void *out = NULL;
+		HIO_HANDLE *h;
+		int i, rc;
+		if (!a || !b)
+			continue;
+		for (i = 0; all_names[i] && strcmp(all_names[i], a); i++)
+			;
+		if (!all_names[i])
+			return 2;
+		slen = get_hex(b, &src);
+		if (slen < 0)
+			return 2;
+		h = hio_open_const_mem(src, slen);
+		if (!h)
+			return 2;
+		rc = all[i]->depack(h, &out, &outlen);
+		if (rc == 0 && out != NULL && outlen >= 0) {
+			printf("D ok %ld %016llx\n", outlen,
+			       (unsigned long long)(outlen > 0 ? fnv1a(FNV_INIT, out, (size_t)outlen) : FNV_INIT));
+			free(out);
+		} else {
+			printf("D fail\n");
+		}
+		hio_close(h);
+		free(src);
+		fflush(stdout);
+	}
+	fclose(f);
+	return 0;
+}
+
 int main(int argc, char **argv)
 {
 	if (argc < 3) {
-		fprintf(stderr, "usage: c08_unpack load|md5|magic|rle <file>\n");
+		fprintf(stderr, "usage: c08_unpack load|md5|magic|rle|dp <file>\n");
 		return 2;
 	}
 	if (!strcmp(argv[1], "load"))
@@ -511,5 +561,7 @@ int main(int argc, char **argv)
 		return mode_magic(argv[2]);
 	if (!strcmp(argv[1], "rle"))
 		return mode_rle(argv[2]);
+	if (!strcmp(argv[1], "dp"))
+		return mode_dp(argv[2]);
 	return 2;
 }
